@@ -2,10 +2,10 @@
 (***************************************************************************)
 (* C18 model: one tick of the materialization bus.                         *)
 (*                                                                         *)
-(* A token universe TokSeq (channel, emit key, payload) and a list PolSeq  *)
-(* of channel-policy assignments are fixed by the cfg.  A behaviour        *)
-(* registers one assignment, then emits distinct tokens one at a time and  *)
-(* may finalize after MinN..MaxN emits.                                    *)
+(* A token universe TokAt(1..NTok) of (channel, emit key, payload) and a   *)
+(* list PolSeq of channel-policy assignments are fixed by the cfg.  A      *)
+(* behaviour registers one assignment, emits distinct tokens one at a time *)
+(* and may finalize after MinN..MaxN emits.                                *)
 (*                                                                         *)
 (*   Mode = "perm": any unused token may be emitted next, so TLC walks     *)
 (*      EVERY order of EVERY token subset of size <= MaxN, including       *)
@@ -15,7 +15,7 @@
 (*      skipped, so TLC walks every repeat-free subset once; the exported  *)
 (*      CASE is the oracle for the set and the harness enumerates all      *)
 (*      permutations of it against the real bus.                           *)
-(*      TokSeq may also be a seeded table written by the runner.           *)
+(*      The table may also be a seeded one written by the runner (MC_Env). *)
 (*                                                                         *)
 (* Exported CASE = policies per channel, the emission sequence in the      *)
 (* order taken with the accepted/rejected flag of every emit, and the      *)
@@ -23,9 +23,9 @@
 (***************************************************************************)
 EXTENDS Bus, Json, IOUtils
 
-CONSTANTS Mode, NTok, TokAt(_), PolSeq, MinN, MaxN, Export, CheckRekeyDirect
+CONSTANTS Mode, NTok, TokAt(_), PolSeq, RegisterFirst, MinN, MaxN, Export, CheckRekeyDirect
 
-VARIABLES used          \* indices of TokSeq emitted so far
+VARIABLES used          \* token indices emitted so far
 vars == <<policies, pending, hist, report, used>>
 
 -----------------------------------------------------------------------------
@@ -59,37 +59,43 @@ ProductAt(Cs, Ks, Ds, i) ==
       Ks[(((i - 1) \div Len(Ds)) % Len(Ks)) + 1],
       Ds[((i - 1) % Len(Ds)) + 1], 0)
 
-\* perm universes: full product (so every re-keying of a set is itself explored) + two exact copies
-PaysQ == <<<<>>, <<1>>, <<255>>, <<0, 1>>, B9>>
-MC_PermQ_N == 32
-MC_PermQ_At(i) == CASE i <= 30 -> ProductAt(<<0, 1>>, <<K1, K2, K3>>, PaysQ, i)
-                    [] i = 31  -> Tok(0, K2, <<1>>, 1)
-                    [] i = 32  -> Tok(1, K3, <<>>, 1)
+\* perm universes: full product (so every re-keying of a set is itself explored), one exact copy
+\* of a product token (identical-payload repeat) and 9-byte payloads on two slots
+PaysQ == <<<<>>, <<1>>, <<0, 255>>>>
+MC_PermQ_N == 21
+MC_PermQ_At(i) == CASE i <= 18 -> ProductAt(<<0, 1>>, <<K1, K2, K3>>, PaysQ, i)
+                    [] i = 19  -> Tok(0, K2, <<1>>, 1)
+                    [] i = 20  -> Tok(1, K3, B9, 0)
+                    [] i = 21  -> Tok(0, K1, B9, 0)
 PaysT == <<<<>>, <<1>>, <<255, 1>>, <<0, 255>>, B9, B8>>
 MC_PermT_N == 38
 MC_PermT_At(i) == CASE i <= 36 -> ProductAt(<<0, 1>>, <<K1, K2, K3>>, PaysT, i)
                     [] i = 37  -> Tok(0, K2, <<1>>, 1)
                     [] i = 38  -> Tok(1, K3, B9, 1)
+\* tiny universe used to check that registering policies first or last exports the same cases
+MC_PermS_N == 8
+MC_PermS_At(i) == ProductAt(<<0, 1>>, <<K1, K2>>, <<<<1>>, <<0, 255>>>>, i)
 
 \* set universes: hand-made tables with payload lengths 0, 1, 2, 8, 9 mixed on two / three channels
-MC_SetA_N == 10
-MC_SetA_At(i) == MC_TokSetA[i]
 MC_TokSetA == <<Tok(0, K1, <<>>, 0),       Tok(0, K2, <<1>>, 0),     Tok(0, K3, <<255, 1>>, 0),
                 Tok(0, K4, B9, 0),         Tok(0, K5, <<0, 255>>, 0), Tok(0, K6, <<1>>, 0),
                 Tok(1, K2, <<255>>, 0),    Tok(1, K3, <<1, 1>>, 0),   Tok(1, K1, <<0>>, 0),
                 Tok(1, K5, <<255, 0, 1>>, 0)>>
-MC_SetB_N == 10
-MC_SetB_At(i) == MC_TokSetB[i]
 MC_TokSetB == <<Tok(0, K3, B9, 0),         Tok(0, K1, B9b, 0),       Tok(0, K2, B8, 0),
                 Tok(0, K4, <<255>>, 0),    Tok(0, K6, <<1, 255>>, 0), Tok(0, K5, <<1>>, 0),
                 Tok(0, <<0, 0, 0>>, <<0, 0, 1>>, 0),
                 Tok(2, K1, <<1, 2>>, 0),   Tok(2, K3, <<3>>, 0),      Tok(1, K6, <<>>, 0)>>
-MC_SetC_N == 9
-MC_SetC_At(i) == MC_TokSetC[i]
 MC_TokSetC == <<Tok(1, K5, <<1>>, 0),      Tok(1, K4, <<1, 0>>, 0),  Tok(1, K3, <<1, 0, 0>>, 0),
                 Tok(1, K2, <<>>, 0),       Tok(1, K1, <<0>>, 0),      Tok(1, K6, <<0, 0>>, 0),
                 Tok(1, <<3, 0, 0>>, <<255, 255>>, 0), Tok(1, <<0, 0, 4>>, B9, 0),
                 Tok(0, K1, <<7>>, 0)>>
+
+MC_SetA_N == 10
+MC_SetA_At(i) == MC_TokSetA[i]
+MC_SetB_N == 10
+MC_SetB_At(i) == MC_TokSetB[i]
+MC_SetC_N == 9
+MC_SetC_At(i) == MC_TokSetC[i]
 
 \* seeded token table written by the runner (a JSON array of {ch, key, data, id}); used in set mode
 MC_TokEnv == JsonDeserialize(IOEnv.VERIF_C18_TOKS)
@@ -100,8 +106,11 @@ MC_Env_At(i) == MC_TokEnv[i]
 
 Registered(pa) == [c \in {x \in DOMAIN pa : pa[x] # "Unreg"} |-> pa[c]]
 
+\* Policies are registered before the first emit (RegisterFirst) or just before finalize. Emit neither
+\* reads nor writes `policies`, so both give the same behaviours; registering last keeps the emit
+\* states shared between the policy assignments.
 Init ==
-  /\ \E i \in 1..Len(PolSeq) : policies = Registered(PolSeq[i])
+  /\ IF RegisterFirst THEN \E i \in 1..Len(PolSeq) : policies = Registered(PolSeq[i]) ELSE policies = EmptyFn
   /\ pending = EmptyFn
   /\ hist = <<>>
   /\ report = None
@@ -120,7 +129,12 @@ Next ==
      /\ \E i \in 1..NTok : EmitTok(i)
   \/ /\ report = None
      /\ Cardinality(used) >= MinN
-     /\ Finalize
+     /\ IF RegisterFirst THEN Finalize
+        ELSE \E i \in 1..Len(PolSeq) :
+               /\ report' = FinalizeReport(Registered(PolSeq[i]), pending)      \* Register ; Finalize
+               /\ policies' = Registered(PolSeq[i])
+               /\ pending' = EmptyFn
+               /\ UNCHANGED hist
      /\ UNCHANGED used
 
 Spec == Init /\ [][Next]_vars
@@ -132,7 +146,7 @@ Inv_TypeOK            == TypeOK
 Inv_Pending           == Inv_PendingIsSet
 Inv_Dup               == Inv_DuplicateRejected
 Inv_Oracle            == Inv_FinalizeIsOracle
-Inv_OracleNow         == Inv_FinalizeNowIsOracle
+Inv_OracleNow         == RegisterFirst => Inv_FinalizeNowIsOracle
 Inv_Partition         == Inv_ReportPartition
 Inv_Rekey             == CheckRekeyDirect => RekeyDirect
 \* a history without repeated (channel, key) accepts everything
@@ -147,7 +161,7 @@ ChanSeq == NatSeq(Channels)
 CaseJson ==
   [mode   |-> Mode,
    pol    |-> [i \in 1..Len(ChanSeq) |-> IF ChanSeq[i] \in DOMAIN policies THEN policies[ChanSeq[i]] ELSE "Unreg"],
-   emits  |-> [i \in 1..Len(hist) |-> [ch |-> hist[i].ch, key |-> hist[i].key, data |-> hist[i].data, ok |-> hist[i].ok]],
+   emits  |-> hist,
    channels |-> report.channels,
    errors |-> report.errors]
 Inv_Export == (Export /\ report # None) => PrintT(<<"CASE", ToJson(CaseJson)>>)
